@@ -65,3 +65,24 @@ for _named in (True, False):
                      ("C08.the_result_name_is_the_one_given_or_a_fresh_one", "CALLS[0]['name'] == %r and result == ('result named', %r)" % (("mine", "mine") if _named else ("parset_default_progset_progs_1", "parset_default_progset_progs_1"))),
                      ("C08.the_result_is_stored_only_when_asked", "STORED == %s" % ("[result]" if _store else "[]"))],
             defined_props=["C08", "C09"])
+
+
+# ---- Project.run_scenarios (C09): exactly the ACTIVE scenarios of the project are run, in their stored order, each against this project with the caller's storage flag
+def _env_run_scens(it):
+    from pyvc.interp import PyObjV
+    from pyvc import source
+
+    sm = source.load("scenarios")
+    scens = {n: PyObjV("Scenario", sm, {"name": n, "active": act}) for n, act in (("first", True), ("off", False), ("last", True))}
+    return {"self": PyObjV("Project", source.load("project"), {"name": "proj", "scens": scens}), "store_results": False, "RUNS": []}
+
+
+def _ghost_scen_run(it, project=None, store_results=True):
+    it.live_env["RUNS"].append((it.stub_receiver.fields["name"], project, store_results))
+    return "result of " + it.stub_receiver.fields["name"]
+
+
+CONTRACTS["project:Project.run_scenarios"] = dict(
+    schema=schema, make_env=_env_run_scens, call_stubs={"scenario.run": _ghost_scen_run},
+    ensures=[("C09.exactly_the_active_scenarios_are_run_in_order_against_this_project", "result == ['result of first', 'result of last'] and len(RUNS) == 2 and RUNS[0][0] == 'first' and RUNS[1][0] == 'last' and RUNS[0][1] is self and RUNS[1][1] is self and RUNS[0][2] is False")],
+    defined_props=["C09"])
